@@ -9,6 +9,10 @@ CHECKS = {
                 text="For every value of the symbolic fields (name, charge, mult, isotope/label None-ness and content, type/stereo/geometry ints, formal charge/spin, bond label/type/stereo/endpoints, nested attribute ints) and each concrete cell (element of atom 0 in {Unknown,H,C,Og}, 0-3 atoms, 0-2 bonds, 0-2 conformers, arrays with NaN/negative/float32-inexact values; v2 and legacy v1) all CrossHair paths confirm field-by-field equality and array shapes after the real library write/read path. Bounded symbolic verification.",
                 note="Trusts CrossHair+z3, the HandleCodec model of msgpack (validated against msgpack every run) and the storage models; numpy buffers are concrete; counterexamples are replayed with real msgpack and real files.",
                 design="3/C01"),
+    "C05": dict(engine="XH", technique="CrossHair symbolic execution of edit histories on real Molecule/Structure objects; operation and operand selectors symbolic, z3 decides each path [selector-bound]",
+                text="All edit histories of length 1 (every applicable move), 2 and (thorough) 3 over the stated move menu from empty / mol2-loaded / cloned start states are explored path by path by CrossHair and compared after every step with a reference model keyed by atom identity (rows, dtypes, per-atom coordinate and charge, bond endpoints, deleted bonds, parent, idx). The solver enumerates a finite menu here; it adds no generalisation beyond it.",
+                note="Selector-bound: exhaustive over the bounded menu, not over arbitrary histories (random length-40 histories of the quantifier are not reproduced). One recorded known finding (append_bond with a foreign atom) is excluded by predicate and re-witnessed on every run.",
+                design="3/C05"),
     "C02": dict(engine="XH", technique="CrossHair symbolic execution (z3 per path) of UKVFile/Collection on pure-Python file/struct/dict models, symbolic bytes, buffer size, stale-prefix and operation selectors",
                 text="Every CrossHair condition is 'Confirmed over all paths' inside the bound (<=3 records, keys 1-2 B + 255/256 B, values <=2-3 B, bufsize in [-1,200], <=3 handles, <=3 sessions): one operation from every stale-handle state, failed operations leave file and views unchanged, headers preserved, listed keys readable in-session, 2-handle session histories. Bounded symbolic verification, not a proof for larger files.",
                 note="Trusts CrossHair+z3 and the PyStruct/MemStream/FakePath/AssocDict/RWLock models (differentially validated against struct, real files and dict on every run); counterexamples are replayed with real struct, files and fasteners before being reported.",
